@@ -291,8 +291,9 @@ def add_dominated_state(gen, rng):
 def make_instance(rng, idx, contingent, n, m, d, stats):
     """generate until an instance is accepted; acceptance is biased towards instances with longer conformant plans"""
     from unified_planning.model import Problem
+    family = "neg" if (idx % 10 in (2, 6, 9) or idx % 20 == 14) else None     # 7 of 20 quick problems (2 contingent)
     while True:
-        gen = KGen(rng, contingent=contingent)
+        gen = KGen(rng, contingent=contingent, family=family)
         stats["generated"] += 1
         if contingent:
             plain = Problem("k", gen.env)
@@ -314,7 +315,10 @@ def make_instance(rng, idx, contingent, n, m, d, stats):
             plan = orc.belief_search([gen.state_of(b) for b in gen.bits], gen.ground_instances(), n)
         L = None if plan is None else len(plan)
         want = idx % 5
-        if want in (0, 3):                 # a conformant plan of length >= 2
+        if family is not None:
+            keep = 1.0
+            stats["family_" + family] = stats.get("family_" + family, 0) + 1
+        elif want in (0, 3):                 # a conformant plan of length >= 2
             keep = 1.0 if (L or 0) >= 2 else 0.0
         elif want == 1:                    # the longer the better
             keep = 1.0 if (L or 0) >= 3 else (0.1 if L == 2 else 0.0)
